@@ -93,3 +93,125 @@ Definition remove_from_tub : act := fun s => (s, [ORemove]).
 
 (* a state whose every field __init__ must overwrite *)
 Definition blank : st := mkSt true true true 0 (Some 0) 0 0 0 IUnstarted.
+
+(* ====================================================================== the Tub side (pb.py)
+   Vocabulary into which g_reconnector.py translates Tub.connectTo, the Reconnector parts of Tub.startService and
+   Tub.stopService, and Tub._removeReconnector.  A Tub owns every Reconnector it ever created (by id = position in
+   [t_rcs]); `self.reconnectors` is a Python list of them ([t_list]; None once `del self.reconnectors` ran).
+   Exceptions are modelled: [t_exc] = "an exception is propagating"; sequencing and loops stop when it is set, the
+   event dispatcher (lib/ReconnectorTub.v) plays the caller that sees it. *)
+Record tub_st := mkTub {
+  t_running : bool;              (* Service.running, set by MultiService.startService *)
+  t_shut    : bool;              (* stopService rebound startService / getReference / connectTo to raise *)
+  t_list    : option (list nat); (* self.reconnectors *)
+  t_queue   : list nat;          (* foolscap.eventual queue: pending calls rc.startConnecting(self) *)
+  t_rcs     : list st;           (* the Reconnectors, by id *)
+  t_cur     : nat;               (* the Reconnector the variable `rc` names *)
+  t_exc     : bool               (* an exception (ValueError from list.remove / AttributeError / AssertionError) propagates *)
+}.
+
+(* (which Reconnector, what it did to its environment) *)
+Definition tout := (nat * out)%type.
+Definition tact := tub_st -> tub_st * list tout.
+
+Definition tret : tact := fun t => (t, []).
+(* statement sequencing: an exception raised by the first part skips the rest *)
+Definition tseq (a b : tact) : tact :=
+  fun t => let (t1, o1) := a t in
+           if t_exc t1 then (t1, o1) else let (t2, o2) := b t1 in (t2, o1 ++ o2).
+Definition tcond (c : tub_st -> bool) (a b : tact) : tact := fun t => if c t then a t else b t.
+
+Definition upd {A} (i : nat) (x : A) (l : list A) : list A :=
+  (fix go (i : nat) (l : list A) {struct l} : list A :=
+     match l with
+     | [] => []
+     | y :: r => match i with O => x :: r | S i' => y :: go i' r end
+     end) i l.
+Fixpoint remove_first (i : nat) (l : list nat) : list nat :=
+  match l with
+  | [] => []
+  | y :: r => if Nat.eqb y i then r else y :: remove_first i r
+  end.
+Definition memb (i : nat) (l : list nat) : bool := existsb (Nat.eqb i) l.
+
+Definition t_set_rcs (r : list st) (t : tub_st) : tub_st :=
+  mkTub (t_running t) (t_shut t) (t_list t) (t_queue t) r (t_cur t) (t_exc t).
+Definition t_set_cur (i : nat) (t : tub_st) : tub_st :=
+  mkTub (t_running t) (t_shut t) (t_list t) (t_queue t) (t_rcs t) i (t_exc t).
+Definition t_raise : tact :=
+  fun t => (mkTub (t_running t) (t_shut t) (t_list t) (t_queue t) (t_rcs t) (t_cur t) true, []).
+
+(* rc = Reconnector(_furl, _cb, args, kwargs) *)
+Definition t_new (init : st) : tact :=
+  fun t => (mkTub (t_running t) (t_shut t) (t_list t) (t_queue t) (t_rcs t ++ [init]) (List.length (t_rcs t)) (t_exc t), []).
+(* self.reconnectors.append(rc) *)
+Definition t_append : tact :=
+  fun t => match t_list t with
+           | Some l => (mkTub (t_running t) (t_shut t) (Some (l ++ [t_cur t])) (t_queue t) (t_rcs t) (t_cur t) (t_exc t), [])
+           | None => t_raise t
+           end.
+(* self.reconnectors.remove(rc): ValueError if rc is not in the list, AttributeError if the list was deleted *)
+Definition t_remove : tact :=
+  fun t => match t_list t with
+           | Some l => if memb (t_cur t) l
+                       then (mkTub (t_running t) (t_shut t) (Some (remove_first (t_cur t) l)) (t_queue t) (t_rcs t) (t_cur t) (t_exc t), [])
+                       else t_raise t
+           | None => t_raise t
+           end.
+(* del self.reconnectors *)
+Definition t_del_list : tact :=
+  fun t => match t_list t with
+           | Some _ => (mkTub (t_running t) (t_shut t) None (t_queue t) (t_rcs t) (t_cur t) (t_exc t), [])
+           | None => t_raise t
+           end.
+(* service.MultiService.startService(self) *)
+Definition t_set_running : tact :=
+  fun t => (mkTub true (t_shut t) (t_list t) (t_queue t) (t_rcs t) (t_cur t) (t_exc t), []).
+(* assert self.running *)
+Definition t_assert_running : tact := fun t => if t_running t then (t, []) else t_raise t.
+(* self.startService = self._tubsAreNotRestartable; self.getReference = self.connectTo = self._tubHasBeenShutDown *)
+Definition t_forbid : tact :=
+  fun t => (mkTub (t_running t) true (t_list t) (t_queue t) (t_rcs t) (t_cur t) (t_exc t), []).
+(* eventual.eventually(rc.startConnecting, self) *)
+Definition t_enqueue_start : tact :=
+  fun t => (mkTub (t_running t) (t_shut t) (t_list t) (t_queue t ++ [t_cur t]) (t_rcs t) (t_cur t) (t_exc t), []).
+
+(* rc.<method>(...): run a translated Reconnector method on the Reconnector that `rc` names; every call the method
+   makes to self._tub._removeReconnector(self) (output ORemove) runs [rm] = the translated
+   Tub._removeReconnector, and an exception raised there propagates out of the method *)
+Definition is_remove (o : out) : bool := match o with ORemove => true | _ => false end.
+Definition t_removes (rm : tact) (outs : list out) (t : tub_st) : tub_st :=
+  fold_left (fun t o => if is_remove o then (if t_exc t then t else fst (rm t)) else t) outs t.
+Definition t_call_rc (rm : tact) (a : act) : tact :=
+  fun t => let i := t_cur t in
+           let (s', outs) := a (nth i (t_rcs t) blank) in
+           (t_removes rm outs (t_set_rcs (upd i s' (t_rcs t)) t), map (pair i) outs).
+
+(* for rc in list(self.reconnectors): <body>   -- iterates over a snapshot *)
+Fixpoint t_each (ids : list nat) (body : tact) (t : tub_st) {struct ids} : tub_st * list tout :=
+  match ids with
+  | [] => (t, [])
+  | i :: r => let (t1, o1) := body (t_set_cur i t) in
+              if t_exc t1 then (t1, o1) else let (t2, o2) := t_each r body t1 in (t2, o1 ++ o2)
+  end.
+Definition t_for_copy (body : tact) : tact :=
+  fun t => match t_list t with Some l => t_each l body t | None => t_raise t end.
+(* for rc in self.reconnectors: <body>   -- Python's list iterator: index k against the list AS IT IS NOW, so a body
+   that removes the current element makes the loop skip the next one *)
+Fixpoint t_live (fuel k : nat) (body : tact) (t : tub_st) {struct fuel} : tub_st * list tout :=
+  match fuel with
+  | O => (t, [])
+  | S f => match t_list t with
+           | None => t_raise t
+           | Some l => match nth_error l k with
+                       | None => (t, [])
+                       | Some i => let (t1, o1) := body (t_set_cur i t) in
+                                   if t_exc t1 then (t1, o1)
+                                   else let (t2, o2) := t_live f (S k) body t1 in (t2, o1 ++ o2)
+                       end
+           end
+  end.
+Definition t_for_live (body : tact) : tact :=
+  fun t => match t_list t with Some l => t_live (S (List.length l)) 0 body t | None => t_raise t end.
+
+Definition tub_init : tub_st := mkTub false false (Some []) [] [] 0 false.
